@@ -227,6 +227,44 @@ pub fn pool(tier: Tier, seed: u64, thin: usize) -> Vec<Family> {
             (fanout_keys(fo, depth, fin, deep, rng), style)
         }));
     }
+    // F2b: grid of fan-out x output width: a node with `fo` transitions whose outputs all need exactly `w` bytes
+    // (w = 0 means a set), with and without a final output of that width
+    {
+        let fos = [33usize, 64, 147, 171, 205, 255, 256];
+        let count = fos.len() * 9 * 2;
+        fams.push(Family {
+            name: "fanout-x-width",
+            count,
+            make: Box::new(move |i| {
+                let mut rng = Rng::new(seed, 0xF0_7 + i as u64);
+                let fo = fos[i % fos.len()];
+                let w = (i / fos.len()) % 9;
+                let fin = i / (fos.len() * 9) == 1;
+                let keys = fanout_keys(fo, 1, fin, false, &mut rng);
+                let n = keys.len() as u64;
+                let kv: Kv = keys
+                    .into_iter()
+                    .enumerate()
+                    .map(|(j, k)| {
+                        let v = if w == 0 {
+                            0
+                        } else {
+                            // values of width w whose pairwise differences also need w bytes: outputs stay w bytes wide
+                            // after the common prefix moved up; descending when final so that the final output is large
+                            let base = if w == 8 { 1u64 << 56 } else { 1u64 << (8 * (w as u32 - 1)) };
+                            let top = if w == 8 { u64::MAX } else { (1u64 << (8 * w as u32)) - 1 };
+                            let span = top - base;
+                            let step = span / (n + 1);
+                            let jj = if fin { n - j as u64 } else { j as u64 + 1 };
+                            base + step * jj
+                        };
+                        (k, v)
+                    })
+                    .collect();
+                Case { set: w == 0, kv, family: "fanout-x-width", index: i }
+            }),
+        });
+    }
     // F3: single bytes: each byte alone, all 256 together, as second byte
     fams.push(fam("single-bytes", 256 * 2 + 4, seed, |i, rng| {
         if i < 256 {
